@@ -204,8 +204,8 @@ def h_red(cfg):
             check('c09.red-average', eq(port.average_queue_size, a), k)
             drew = len(stub.draws) > nd
             u = stub.draws[nd][0] if drew else None
-            # RED curve
-            p = (a - min_th) / (max_th - min_th) * maxp
+            # RED curve (with min_threshold == max_threshold the ramp is empty)
+            p = (a - min_th) / (max_th - min_th) * maxp if max_th != min_th else maxp
             below = lt(a, min_th)
             hard = ge(a, qlimit)
             mid = And(ge(a, min_th), lt(a, max_th), lt(a, qlimit))
@@ -277,6 +277,10 @@ def jobs(tier, seed):
                 else:
                     cfg.update(min_th=1, max_th=3, qlimit=4)
                 js.append({'harness': 'red', 'cfg': cfg, 'weight': 8})
+    # legal corner configuration: no ramp at all (min_threshold == max_threshold)
+    js.append({'harness': 'red', 'weight': 8,
+               'cfg': {'n': 3, 'sorts': 'int', 'w': 1, 'rate': 8, 'bytes': False, 'maxp': '1/2', 'min_th': 2, 'max_th': 2,
+                       'qlimit': 4}})
     return js
 
 
